@@ -2,6 +2,7 @@
 from __future__ import annotations
 
 import json
+from fractions import Fraction
 
 from ..core import (numpy, numpoly, run_driver, poly_to_struct, den_of_struct, den_key, err_kind, wf_problems,
                     coef_json, coef_from_json, exact_to_py, struct_to_poly)
@@ -223,6 +224,42 @@ def run_odd_keys(ctx):
                 ctx.fail(case, f"{label} with e={e} (storage key {chr(e + 59)!r}): {probs}", ["odd-keys", "wf"])
 
 
+def run_byteorder(ctx):
+    """coefficient types with an explicit non-native byte order: same numbers, same polynomial (seeded change C03-10: the
+    compiled writer selected by dtype *name* leaves such storage unwritten)"""
+    expos = [[0, 0], [1, 0], [0, 2]]
+    for dt in (">i8", ">f8", ">c16", ">u4", ">i2", ">f4", ">u8"):
+        kind = numpy.dtype(dt).kind
+        vals = [[1, 2], [3, 0], [0, 5]]
+        want = {(): (Fraction(1), Fraction(2)), ((0, 1),): (Fraction(3), Fraction(0)), ((1, 2),): (Fraction(0), Fraction(5))}
+        native = numpy.dtype(dt).newbyteorder("=")
+        cols = [numpy.array(v, dtype=native) for v in vals]
+        routes = {
+            "polynomial_from_attributes(dtype=)": lambda: numpoly.polynomial_from_attributes(expos, cols, ("q0", "q1"), dtype=dt),
+            "polynomial_from_attributes(swapped arrays)": lambda: numpoly.polynomial_from_attributes(expos, [c.astype(dt) for c in cols], ("q0", "q1")),
+            "polynomial(dict, dtype=)": lambda: numpoly.polynomial({tuple(e): c for e, c in zip(expos, cols)}, names=("q0", "q1"), dtype=dt),
+            "astype": lambda: numpoly.polynomial_from_attributes(expos, cols, ("q0", "q1")).astype(dt),
+            "polynomial(poly, dtype=)": lambda: numpoly.polynomial(numpoly.polynomial_from_attributes(expos, cols, ("q0", "q1")), dtype=dt),
+        }
+        for label, make in routes.items():
+            case = {"kind": "byteorder", "dtype": dt, "route": label}
+            ctx.evaluations += 1
+            ctx.count("byteorder")
+            try:
+                p = make()
+                probs = wf_problems(p)
+                got = den_of_struct(poly_to_struct(p))
+            except Exception as err:  # noqa: BLE001
+                ctx.fail(case, f"{label} with dtype {dt} raised {type(err).__name__}: {str(err)[:100]}", ["byteorder", "raises"])
+                continue
+            if probs:
+                ctx.fail(case, f"{label} with dtype {dt}: {probs}", ["byteorder", "wf"])
+            elif got != want:
+                ctx.fail(case, f"{label} with dtype {dt} denotes {den_key(got)[:120]}, the attributes say {den_key(want)[:120]}", ["byteorder", "value"])
+            elif numpy.dtype(p.dtype).newbyteorder("=") != native:
+                ctx.fail(case, f"{label} with dtype {dt}: coefficient dtype {p.dtype}", ["byteorder", "dtype"])
+
+
 def run_allocations(ctx):
     """every public constructor that takes `allocation`, for every allocation from the number of terms to three times it"""
     makers = [("variable(3)", 3, lambda a: numpoly.variable(3, allocation=a)),
@@ -305,6 +342,7 @@ def run(ctx):
     run_mixed_numbers(ctx)
     run_allocations(ctx)
     run_odd_keys(ctx)
+    run_byteorder(ctx)
 
 
 def replay(ctx, case):
@@ -315,6 +353,10 @@ def replay(ctx, case):
     if case["kind"] == "odd-keys":
         run_odd_keys(ctx)
         hits = [f for f in ctx.failures[n:] if f["case"].get("exponent") == case["exponent"]]
+        return hits[0]["what"] if hits else None
+    if case["kind"] == "byteorder":
+        run_byteorder(ctx)
+        hits = [f for f in ctx.failures[n:] if f["case"].get("dtype") == case["dtype"] and f["case"].get("route") == case["route"]]
         return hits[0]["what"] if hits else None
     if case["kind"] == "allocation":
         run_allocations(ctx)
